@@ -11,6 +11,7 @@ use rust_dsymbols::fpgroups::stabilizer::stabilizer;
 use rust_dsymbols::fundamental_group::fundamental_group;
 use rust_dsymbols::generators::dset_generators::DSets;
 use rust_dsymbols::generators::dsym_generators::{DSyms, Geometries};
+use std::panic::{catch_unwind, resume_unwind, AssertUnwindSafe};
 use verif_harness::gen::words_upto;
 use verif_harness::{enc_list, enc_lists, Ctx, Rng};
 
@@ -63,18 +64,28 @@ fn is_nontrivial(mat: &M) -> bool {
     rowwise || colwise
 }
 
-fn ainv(ctx: &mut Ctx, op: &str, kind: &str, n: usize, rels: &[FreeWord], nt: bool) {
-    let tags = format!("{}{} gens={} rels={}", if nt { "nt " } else { "" }, kind, n.min(9), rels.len().min(9));
-    ctx.case(op, &tags, || format!("{} {}", n, enc_rels(rels)), || enc_list(&abelian_invariants(n, rels)));
+fn in_range(n: usize, rels: &[FreeWord]) -> bool {
+    rels.iter().all(|w| w.iter().all(|&g| g != 0 && g.unsigned_abs() <= n))
 }
 
-fn ainv_mat(ctx: &mut Ctx, rng: &mut Rng, kind: &str, n: usize, mat: &M) {
+fn ainv(ctx: &mut Ctx, op: &str, kind: &str, n: usize, rels: &[FreeWord], nt: bool) {
     if !ctx.peek_mine() {
-        // keep the random stream aligned between shards: the presentation is always drawn
-        let _ = presentation(rng, mat);
         ctx.skip();
         return;
     }
+    // the call is made once, before the case is emitted, so that a panic on a well-formed
+    // presentation (the only reachable one is arithmetic overflow) shows up in the input histogram
+    let res = catch_unwind(AssertUnwindSafe(|| abelian_invariants(n, rels)));
+    let ovf = if res.is_err() && in_range(n, rels) { " overflow-panic" } else { "" };
+    let tags = format!("{}{}{} gens={} rels={}", if nt { "nt " } else { "" }, kind, ovf, n.min(9), rels.len().min(9));
+    ctx.case(op, &tags, || format!("{} {}", n, enc_rels(rels)), move || match res {
+        Ok(v) => enc_list(&v),
+        Err(e) => resume_unwind(e),
+    });
+}
+
+fn ainv_mat(ctx: &mut Ctx, rng: &mut Rng, kind: &str, n: usize, mat: &M) {
+    // the presentation is always drawn: all shards see the same random stream
     let rels = presentation(rng, mat);
     ainv(ctx, "ainv", kind, n, &rels, is_nontrivial(mat));
 }
@@ -182,7 +193,19 @@ fn meta(ctx: &mut Ctx, rng: &mut Rng, kind: &str, n: usize, mat: &M) {
     // always draw, so that all shards see the same random stream
     let rels = presentation(rng, mat);
     let vs = variants(rng, n, &rels);
-    let tags = format!("nt meta {} gens={} rels={}", kind, n.min(9), rels.len().min(9));
+    if !ctx.peek_mine() {
+        ctx.skip();
+        return;
+    }
+    let res = catch_unwind(AssertUnwindSafe(|| {
+        let mut res: Vec<Vec<usize>> = vec![abelian_invariants(n, &rels)];
+        for (_, v) in &vs {
+            res.push(abelian_invariants(n, v));
+        }
+        res
+    }));
+    let ovf = if res.is_err() { " overflow-panic" } else { "" };
+    let tags = format!("nt meta {}{} gens={} rels={}", kind, ovf, n.min(9), rels.len().min(9));
     ctx.case(
         "meta",
         &tags,
@@ -193,12 +216,9 @@ fn meta(ctx: &mut Ctx, rng: &mut Rng, kind: &str, n: usize, mat: &M) {
             }
             s
         },
-        || {
-            let mut res: Vec<Vec<usize>> = vec![abelian_invariants(n, &rels)];
-            for (_, v) in &vs {
-                res.push(abelian_invariants(n, v));
-            }
-            enc_lists(&res)
+        move || match res {
+            Ok(r) => enc_lists(&r),
+            Err(e) => resume_unwind(e),
         },
     );
 }
@@ -447,7 +467,28 @@ fn main() {
     let mut ctx = Ctx::from_args();
     let th = ctx.thorough();
 
-    // (0) regression corpus / fixed points of the test-suite
+    // (0) regression corpus: F-C14-overflow (isize overflow in diagonalize_in_place on small matrices)
+    let plain = |m: &[&[isize]]| -> Vec<FreeWord> {
+        m.iter()
+            .map(|row| {
+                let mut w = vec![];
+                for (j, &e) in row.iter().enumerate() {
+                    for _ in 0..e.unsigned_abs() {
+                        w.push(if e > 0 { j as isize + 1 } else { -(j as isize + 1) });
+                    }
+                }
+                fw(&w)
+            })
+            .collect()
+    };
+    // 5 generators, 5 relators, |x| ≤ 8: checked build panics at invariants.rs:81, exact answer [3776]
+    ainv(&mut ctx, "ainv", "regress", 5,
+        &plain(&[&[-4, -5, -7, 5, -5], &[3, -7, 8, 8, -2], &[4, 8, 8, -6, 6], &[3, 0, 7, 0, -6], &[4, -7, -4, -4, 0]]), true);
+    // 6 generators, 8 relators, |x| ≤ 9: an unchecked build answers [3], exact answer [] (trivial group)
+    ainv(&mut ctx, "ainv", "regress", 6,
+        &plain(&[&[7, 7, 3, -1, 4, 2], &[-2, 5, 8, 3, 2, 1], &[-8, 2, -2, 4, -3, 7], &[-3, -2, -2, -6, 7, -6],
+                 &[3, -4, 7, 7, 5, -7], &[9, -9, 4, 3, -6, 0], &[4, -7, -7, -5, -9, 1], &[-4, -2, 6, 9, 5, 8]]), true);
+    // fixed points of the test-suite
     let t = |rows: &[&[isize]]| -> Vec<FreeWord> { rows.iter().map(|r| fw(r)).collect() };
     ainv(&mut ctx, "ainv", "fixed", 3, &t(&[&[1, 2, -1, -2], &[1, 3, -1, -3], &[2, 3, -2, -3]]), true);
     ainv(&mut ctx, "ainv", "fixed", 3, &t(&[&[1, 1], &[2, 2], &[3, 3], &[1, 2, 1, 2], &[1, 3, 1, 3], &[2, 3, 2, 3]]), true);
